@@ -329,7 +329,7 @@ def argOK (cfg : CheckCfg) (a : Node) (t0 : Option OTy) (inT : OTy) : Bool :=
   | some t0 =>
     (vtyOf t0).isSome && (vtyOf inT).isSome &&
     (if retypes cfg.dt a inT then intLiteralTree a && inT.kind.isScalar && isNumberT inT
-     else vtyOf t0 == vtyOf inT)
+     else vtyOf inT == some .any || vtyOf t0 == vtyOf inT)
   | none => false
 
 def ArgsOK (E : ErrClass → Prop) (cfg : CheckCfg) (c : SCfg) (cs : List OTy) (ins : List Ty) (variadic : Bool)
@@ -398,10 +398,18 @@ theorem args_spec2 (hd : E .divzero) (cfg : CheckCfg) (c : SCfg) (cs : List OTy)
           rw [hk]
           exact this
         · rw [if_neg hrt] at hcase ⊢
-          have : vtyOf t' = vtyOf (paramFor ins variadic numIn offset i) := by simpa using hcase
-          rw [this, hVp] at hV0
-          cases hV0
-          exact ev
+          simp only [Bool.or_eq_true, beq_iff_eq] at hcase
+          rcases hcase with hany | this
+          · rw [hany] at hVp
+            cases hVp
+            intro ctx hctx s
+            have := ev ctx hctx s
+            rcases hr : (eval c ctx a' s).1 with e | v
+            · rw [hr] at this; exact this
+            · trivial
+          · rw [this, hVp] at hV0
+            cases hV0
+            exact ev
       have hnp' : (if retypes cfg.dt a (paramFor ins variadic numIn offset i) = true
             then setTypeForIntegers (OTy.kind (paramFor ins variadic numIn offset i)) a' else a').isPair = false := by
         split
@@ -428,6 +436,8 @@ theorem funcPlan_inl {fn : Ty} {im : Bool} {n : Nat} {rule : Rule} (h : funcPlan
 theorem spec2_func (hd : E .divzero) (cfg : CheckCfg) (c : SCfg) (hw : WorldConforms E cfg c) (cs : List OTy) (m : Meta)
     (name : String) (args : List Node) (fast : Bool)
     (htarget : (funcTargetC cfg name).isSome = true)
+    (hplan : ∀ fn isMethod rule, funcTargetC cfg name = some (fn, isMethod) →
+      funcPlan fn isMethod args.length ≠ .inl rule)
     (hargs : ∀ fn isMethod ins variadic numIn offset out, funcTargetC cfg name = some (fn, isMethod) →
       funcPlan fn isMethod args.length = .inr (ins, variadic, numIn, offset, out) →
       ArgsOK E cfg c cs ins variadic numIn offset 0 args) :
@@ -442,14 +452,7 @@ theorem spec2_func (hd : E .divzero) (cfg : CheckCfg) (c : SCfg) (hw : WorldConf
     simp only [] at hs
     cases hfp : funcPlan fn isMethod args.length with
     | inl rule =>
-      exfalso
-      rw [hfp] at hs
-      simp only [] at hs
-      have hrule := toOption'_some hs
-      have hif : vtyOf ifaceTy = none := by decide
-      rcases funcPlan_inl hfp with rfl | ⟨e, rfl⟩
-      · cases hrule; rw [hif] at hV; cases hV
-      · cases hrule
+      exact absurd hfp (hplan fn isMethod rule hft)
     | inr q =>
       obtain ⟨ins, variadic, numIn, offset, out⟩ := q
       rw [hfp] at hs
@@ -691,5 +694,463 @@ theorem spec2_pow (cfg : CheckCfg) (c : SCfg) (cs : List OTy) (m : Meta) (l r : 
         simp only [hx, hy]
         exact smok_pure ⟨_, rfl⟩
       · cases hrule
+
+/-! ### member access on struct-typed values -/
+
+/-- a struct type is classified as an object (it is neither scalar nor a slice) -/
+theorem vtyOf_obj_of {t : OTy} (hV : vtyOf t = some (.obj t)) (v : Val) (n : Nat) :
+    Conf (n + 1) v t ↔ ∃ nm p fs, v = .struct nm p fs ∧
+      (∀ name τ, fieldTypeT .asIs t name = some τ →
+        ∃ w, (∀ ns, fetchV v (.str name) ns = .ok w) ∧ Conf n w (some τ)) ∧
+      (∀ name fn im, methodTarget .asIs t name = some (fn, im) → ∃ id, lookupKv name fs = some (.fn id)) := by
+  simp only [Conf, hV]
+
+/-- `x.name` / `x?.name` for `x` of struct (or pointer-to-struct) type, name resolution as in the current
+code (`cfg.dn = NDefects.asIs`) -/
+theorem spec2_prop (cfg : CheckCfg) (c : SCfg) (cs : List OTy) (hdn : cfg.dn = NDefects.asIs) (m : Meta) (x : Node)
+    (name : String) (nilsafe : Bool) (ihx : Spec2 E cfg c cs x)
+    (hx : ∀ t, synth cfg cs x = some t → vtyOf t = some (.obj t)) :
+    Spec2 E cfg c cs (.prop m x name nilsafe) := by
+  intro τ V hs hV st hst
+  simp only [synth] at hs
+  cases hsx : synth cfg cs x with
+  | none => rw [hsx] at hs; cases hs
+  | some t =>
+    rw [hsx] at hs
+    simp only [] at hs
+    have hrule := toOption'_some hs
+    have hVt := hx t hsx
+    obtain ⟨e1, _, ev1⟩ := ihx t (.obj t) hsx hVt st hst
+    rcases hxv : visit cfg x st with ⟨x', t', st1⟩
+    rw [hxv] at e1 ev1
+    simp only [] at e1 ev1
+    subst e1
+    -- the rule found the member
+    have hft : ∃ ft, fieldTypeT .asIs t' name = some ft ∧ τ = some ft := by
+      unfold propRule at hrule
+      rw [hdn] at hrule
+      cases hf : fieldTypeT NDefects.asIs t' name with
+      | some ft => rw [hf] at hrule; cases hrule; exact ⟨ft, rfl, rfl⟩
+      | none =>
+        rw [hf] at hrule
+        simp only [] at hrule
+        split at hrule
+        · cases hrule
+        · cases hrule
+          have : vtyOf none = none := by decide
+          rw [this] at hV; cases hV
+    obtain ⟨ft, hft, rfl⟩ := hft
+    simp only [visit, hxv, hrule, orFail_ok]
+    refine ⟨trivial, setKd_kd _ _, ?_⟩
+    apply smok_evalOKV
+    intro ctx hctx
+    show SMOK E (fun v => ValOfV v V) (eval c ctx (.prop { m with kd := OTy.kind (some ft) } x' name nilsafe))
+    simp only [eval]
+    refine smok_bind (evalOKV_smok ev1 ctx hctx) ?_
+    intro v hv
+    have hv' : ∀ n, Conf n v t' := hv
+    -- the member's value, the same at every depth
+    obtain ⟨_, _, _, _, hflds0, _⟩ := (vtyOf_obj_of hVt v 0).1 (hv' 1)
+    obtain ⟨w, hw, _⟩ := hflds0 name ft hft
+    have hconf : ∀ n, Conf n w (some ft) := by
+      intro n
+      obtain ⟨_, _, _, _, hfldsn, _⟩ := (vtyOf_obj_of hVt v n).1 (hv' (n + 1))
+      obtain ⟨w', hw', hc⟩ := hfldsn name ft hft
+      have : w' = w := by
+        have h1 := hw' false
+        rw [hw false] at h1
+        cases h1; rfl
+      rw [this] at hc
+      exact hc
+    rw [hw nilsafe]
+    exact smok_lift (conf_valOfV hV hconf)
+
+/-! ### maps with string keys and interface elements, `[]interface{}`, map literals -/
+
+/-- indexing, generically: the operand types are in the fragment and `fetchV` is sound on their values -/
+theorem spec2_index_gen (cfg : CheckCfg) (c : SCfg) (cs : List OTy) (m : Meta) (x i : Node)
+    (ihx : Spec2 E cfg c cs x) (ihi : Spec2 E cfg c cs i)
+    (hxi : ∀ t it, synth cfg cs x = some t → synth cfg cs i = some it →
+      ∃ Vx Vi, vtyOf t = some Vx ∧ vtyOf it = some Vi ∧
+        ∀ τ V a b, synth cfg cs (.index m x i) = some τ → vtyOf τ = some V → ValOfV a Vx → ValOfV b Vi →
+          ROK E (fun v => ValOfV v V) (fetchV a b false)) :
+    Spec2 E cfg c cs (.index m x i) := by
+  intro τ V hs hV st hst
+  have hs0 := hs
+  simp only [synth] at hs
+  cases hsx : synth cfg cs x with
+  | none => rw [hsx] at hs; cases hs
+  | some t =>
+    cases hsi : synth cfg cs i with
+    | none => rw [hsx, hsi] at hs; cases hs
+    | some it =>
+      rw [hsx, hsi] at hs
+      simp only [] at hs
+      have hrule := toOption'_some hs
+      obtain ⟨Vx, Vi, hVx, hVi, hf⟩ := hxi t it hsx hsi
+      obtain ⟨e1, _, ev1⟩ := ihx t Vx hsx hVx st hst
+      have hst1 := visit_colls cfg x st
+      rcases hxv : visit cfg x st with ⟨x', t', st1⟩
+      rw [hxv] at e1 ev1 hst1
+      simp only [] at e1 ev1 hst1
+      subst e1
+      obtain ⟨e2, _, ev2⟩ := ihi it Vi hsi hVi st1 (hst1.trans hst)
+      rcases hiv : visit cfg i st1 with ⟨i', it', st2⟩
+      rw [hiv] at e2 ev2
+      simp only [] at e2 ev2
+      subst e2
+      simp only [visit, hxv, hiv, hrule, orFail_ok]
+      refine ⟨trivial, setKd_kd _ _, ?_⟩
+      apply smok_evalOKV
+      intro ctx hctx
+      show SMOK E (fun v => ValOfV v V) (eval c ctx (.index { m with kd := OTy.kind τ } x' i'))
+      simp only [eval]
+      refine smok_bind (evalOKV_smok ev1 ctx hctx) ?_
+      intro a ha
+      refine smok_bind (evalOKV_smok ev2 ctx hctx) ?_
+      intro b hb
+      exact smok_lift (hf τ V a b hs0 hV ha hb)
+
+/-- member access, generically -/
+theorem spec2_prop_gen (cfg : CheckCfg) (c : SCfg) (cs : List OTy) (m : Meta) (x : Node) (name : String)
+    (nilsafe : Bool) (ihx : Spec2 E cfg c cs x)
+    (hx : ∀ t, synth cfg cs x = some t → ∃ Vx, vtyOf t = some Vx ∧
+      ∀ τ V a, synth cfg cs (.prop m x name nilsafe) = some τ → vtyOf τ = some V → ValOfV a Vx →
+        ROK E (fun v => ValOfV v V) (fetchV a (.str name) nilsafe)) :
+    Spec2 E cfg c cs (.prop m x name nilsafe) := by
+  intro τ V hs hV st hst
+  have hs0 := hs
+  simp only [synth] at hs
+  cases hsx : synth cfg cs x with
+  | none => rw [hsx] at hs; cases hs
+  | some t =>
+    rw [hsx] at hs
+    simp only [] at hs
+    have hrule := toOption'_some hs
+    obtain ⟨Vx, hVx, hf⟩ := hx t hsx
+    obtain ⟨e1, _, ev1⟩ := ihx t Vx hsx hVx st hst
+    rcases hxv : visit cfg x st with ⟨x', t', st1⟩
+    rw [hxv] at e1 ev1
+    simp only [] at e1 ev1
+    subst e1
+    simp only [visit, hxv, hrule, orFail_ok]
+    refine ⟨trivial, setKd_kd _ _, ?_⟩
+    apply smok_evalOKV
+    intro ctx hctx
+    show SMOK E (fun v => ValOfV v V) (eval c ctx (.prop { m with kd := OTy.kind τ } x' name nilsafe))
+    simp only [eval]
+    refine smok_bind (evalOKV_smok ev1 ctx hctx) ?_
+    intro a ha
+    exact smok_lift (hf τ V a hs0 hV ha)
+
+/-- what `fetchV` does on the interface-element collections -/
+theorem fetch_anys (hi : E .index) {a b : Val} {ki : Kind} (ha : ValOfV a .anys) (hb : NumOf b ki) :
+    ROK E (fun v => ValOfV v .any) (fetchV a b false) := by
+  obtain ⟨xs, rfl⟩ := ha
+  obtain ⟨n, hn⟩ := toIntR_num hb
+  simp only [fetchV, hn]
+  exact rok_ite (fun _ => trivial) (fun _ => hi)
+
+theorem fetch_mapAny {a b : Val} (ns : Bool) (ha : ValOfV a .mapAny) (hb : ValOfK b .string) :
+    ROK E (fun v => ValOfV v .any) (fetchV a b ns) := by
+  obtain ⟨kvs, rfl⟩ := ha
+  obtain ⟨k, rfl⟩ := hb
+  simp only [fetchV]
+  trivial
+
+/-- `inV` on the collections of the fragment -/
+theorem inV_ok {a b : Val} {Vl Vr : VTy}
+    (h : Vr.isSlice = true ∨ (Vl = .sc .string ∧ (Vr = .mapAny ∨ ∃ t, Vr = .obj t ∧ vtyOf t = some (.obj t))))
+    (ha : ValOfV a Vl) (hb : ValOfV b Vr) : ∃ res, inV a b = .ok res := by
+  rcases h with hs | ⟨rfl, rfl | ⟨t, rfl, hV⟩⟩
+  · obtain ⟨et, xs, rfl⟩ := arr_of_sliceV hs hb
+    exact ⟨_, rfl⟩
+  · obtain ⟨kvs, rfl⟩ := hb
+    obtain ⟨k, rfl⟩ := ha
+    exact ⟨_, rfl⟩
+  · obtain ⟨k, rfl⟩ := ha
+    obtain ⟨nm, p, fs, rfl, _, _⟩ := (vtyOf_obj_of hV b 0).1 (hb 1)
+    exact ⟨_, rfl⟩
+
+/-! #### map literals -/
+
+def PairsOK (E : ErrClass → Prop) (cfg : CheckCfg) (c : SCfg) (cs : List OTy) : List Node → Prop
+  | [] => True
+  | .pair _ k v :: rest =>
+    (Spec2 E cfg c cs k ∧ Spec2 E cfg c cs v ∧
+      (∀ kt, synth cfg cs k = some kt → vtyOf kt = some (.sc .string)) ∧ vtyOK (synth cfg cs v) = true) ∧
+    PairsOK E cfg c cs rest
+  | _ :: _ => False
+
+/-- the flat list `k₁ v₁ k₂ v₂ …` with string keys -/
+def FlatOK : List Val → Prop
+  | [] => True
+  | [_] => False
+  | k :: _ :: rest => (∃ s, k = .str s) ∧ FlatOK rest
+
+theorem buildMap_ok : ∀ vs : List Val, FlatOK vs → ∃ m, buildMap vs = .ok m
+  | [], _ => ⟨_, rfl⟩
+  | [_], h => absurd h id
+  | k :: v :: rest, h => by
+    obtain ⟨⟨s, rfl⟩, hr⟩ := h
+    obtain ⟨m, hm⟩ := buildMap_ok rest hr
+    exact ⟨insertSorted s v m, by simp only [buildMap, hm]; rfl⟩
+
+theorem pairs_spec2 (cfg : CheckCfg) (c : SCfg) (cs : List OTy) :
+    ∀ ps : List Node, PairsOK E cfg c cs ps → synthList cfg cs ps = true → ∀ st : CState, st.colls = cs →
+      (visitList cfg ps st).2.colls = cs ∧ (visitList cfg ps st).1.length = ps.length ∧
+      ∀ ctx, CtxFor cs ctx → SMOK E FlatOK (evalList c ctx (visitList cfg ps st).1)
+  | [], _, _, st, hst => by
+    simp only [visitList]
+    refine ⟨hst, trivial, ?_⟩
+    intro ctx _
+    simp only [evalList]
+    exact smok_pure (Q := FlatOK) trivial
+  | .pair m k v :: rest, hok, hs, st, hst => by
+    obtain ⟨⟨ihk, ihv, hkt, hvt⟩, hrest⟩ := hok
+    simp only [synthList, Bool.and_eq_true] at hs
+    obtain ⟨hsp, hsr⟩ := hs
+    simp only [synth] at hsp
+    cases hsk : synth cfg cs k with
+    | none => rw [hsk] at hsp; simp at hsp
+    | some kt =>
+      cases hsv : synth cfg cs v with
+      | none => rw [hsk, hsv] at hsp; simp at hsp
+      | some vt =>
+        rw [hsk, hsv] at hsp
+        simp only [] at hsp
+        have hkrule : ∃ r, pairKeyRule cfg.dt kt = .ok r := by
+          cases hp : pairKeyRule cfg.dt kt with
+          | ok r => exact ⟨r, rfl⟩
+          | error e => rw [hp] at hsp; simp [Except.toOption'] at hsp
+        obtain ⟨kr, hkr⟩ := hkrule
+        obtain ⟨ek, _, evk⟩ := ihk kt (.sc .string) hsk (hkt kt hsk) st hst
+        have hck := visit_colls cfg k st
+        rcases hvk : visit cfg k st with ⟨k', kt', st1⟩
+        rw [hvk] at ek evk hck
+        simp only [] at ek evk hck
+        subst ek
+        rw [hsv] at hvt
+        obtain ⟨Vv, hVv⟩ := Option.isSome_iff_exists.1 hvt
+        have hc1 : (orFail (pairKeyRule cfg.dt kt') k'.loc st1).2.colls = cs := by
+          rw [orFail_colls]; exact hck.trans hst
+        obtain ⟨_, _, evv⟩ := ihv vt Vv hsv hVv (orFail (pairKeyRule cfg.dt kt') k'.loc st1).2 hc1
+        have hcv := visit_colls cfg v (orFail (pairKeyRule cfg.dt kt') k'.loc st1).2
+        rcases hvv : visit cfg v (orFail (pairKeyRule cfg.dt kt') k'.loc st1).2 with ⟨v', vt', st2⟩
+        rw [hvv] at evv hcv
+        simp only [] at evv hcv
+        obtain ⟨hcr, hlen, evr⟩ := pairs_spec2 cfg c cs rest hrest hsr st2 (hcv.trans hc1)
+        rcases hr : visitList cfg rest st2 with ⟨rest', st3⟩
+        rw [hr] at hcr hlen evr
+        simp only [] at hcr hlen evr
+        simp only [visitList, visit, hvk, hvv, hr, setKd, Node.withMeta, Node.getMeta]
+        refine ⟨hcr, by simp only [List.length_cons, hlen], ?_⟩
+        intro ctx hctx
+        simp only [evalList]
+        refine smok_bind (evalOKV_smok evk ctx hctx) ?_
+        intro kv hkv
+        refine smok_bind (evalOKV_smok evv ctx hctx) ?_
+        intro vv _
+        refine smok_bind (evr ctx hctx) ?_
+        intro vs hvs
+        exact smok_pure (Q := FlatOK) ⟨hkv, hvs⟩
+  | .nil _ :: _, h, _, _, _ | .ident _ _ _ :: _, h, _, _, _ | .int _ _ :: _, h, _, _, _ | .float _ _ :: _, h, _, _, _
+  | .bool _ _ :: _, h, _, _, _ | .str _ _ :: _, h, _, _, _ | .const _ _ :: _, h, _, _, _ | .unary _ _ _ :: _, h, _, _, _
+  | .binary _ _ _ _ :: _, h, _, _, _ | .matches _ _ _ _ :: _, h, _, _, _ | .prop _ _ _ _ :: _, h, _, _, _
+  | .index _ _ _ :: _, h, _, _, _ | .slice _ _ _ _ :: _, h, _, _, _ | .method _ _ _ _ _ :: _, h, _, _, _
+  | .func _ _ _ _ :: _, h, _, _, _ | .builtin _ _ _ :: _, h, _, _, _ | .closure _ _ :: _, h, _, _, _
+  | .pointer _ :: _, h, _, _, _ | .cond _ _ _ _ :: _, h, _, _, _ | .array _ _ :: _, h, _, _, _ | .map _ _ :: _, h, _, _, _ =>
+    absurd h id
+
+/-- `{k₁: v₁, …}`: a map with string keys and interface elements -/
+theorem spec2_mapLit (hb : E .budget) (cfg : CheckCfg) (c : SCfg) (cs : List OTy) (m : Meta) (ps : List Node)
+    (hps : PairsOK E cfg c cs ps) : Spec2 E cfg c cs (.map m ps) := by
+  intro τ V hs hV st hst
+  simp only [synth] at hs
+  by_cases hl : synthList cfg cs ps = true
+  · rw [if_pos hl] at hs
+    cases hs
+    have : vtyOf mapTy = some .mapAny := by decide
+    rw [this] at hV
+    cases hV
+    obtain ⟨hc, _, ev⟩ := pairs_spec2 cfg c cs ps hps hl st hst
+    rcases hr : visitList cfg ps st with ⟨ps', st1⟩
+    rw [hr] at hc ev
+    simp only [] at hc ev
+    simp only [visit, hr]
+    refine ⟨trivial, setKd_kd _ _, ?_⟩
+    apply smok_evalOKV
+    intro ctx hctx
+    show SMOK E (fun v => ∃ kvs, v = .map kvs) (eval c ctx (.map { m with kd := OTy.kind mapTy } ps'))
+    simp only [eval]
+    refine smok_bind (ev ctx hctx) ?_
+    intro flat hflat
+    obtain ⟨mm, hmm⟩ := buildMap_ok flat hflat
+    rw [hmm]
+    refine smok_bind (Qa := fun _ => True) (smok_lift trivial) ?_
+    intro mv _
+    refine smok_bind (smok_allocAfter hb _ _ _) ?_
+    intro _ _
+    exact smok_pure ⟨_, rfl⟩
+  · rw [if_neg hl] at hs; cases hs
+
+/-! ### `matches` -/
+
+/-- **the hypothesis on regular expressions**: every pattern the program meets compiles (for a constant
+pattern the compiler has checked it; a computed pattern that does not compile is a run-time failure that
+depends on the pattern's value, which `Spec.eval` reports in the type class) -/
+def RegexTotal (c : SCfg) : Prop := ∀ pat subj, (c.world.regexMatch pat subj).isSome = true
+
+theorem spec2_matches (cfg : CheckCfg) (c : SCfg) (hre : RegexTotal c) (cs : List OTy) (m : Meta) (hasRe : Bool) (l r : Node)
+    (ihl : Spec2 E cfg c cs l) (ihr : Spec2 E cfg c cs r)
+    (hl : ∀ t, synth cfg cs l = some t → vtyOf t = some (.sc .string))
+    (hr : ∀ t, synth cfg cs r = some t → vtyOf t = some (.sc .string)) :
+    Spec2 E cfg c cs (.matches m hasRe l r) := by
+  intro τ V hs hV st hst
+  simp only [synth] at hs
+  cases hsl : synth cfg cs l with
+  | none => rw [hsl] at hs; cases hs
+  | some lt =>
+    cases hsr : synth cfg cs r with
+    | none => rw [hsl, hsr] at hs; cases hs
+    | some rt =>
+      rw [hsl, hsr] at hs
+      simp only [] at hs
+      have hrule := toOption'_some hs
+      obtain ⟨e1, _, ev1⟩ := ihl lt (.sc .string) hsl (hl lt hsl) st hst
+      have hst1 := visit_colls cfg l st
+      rcases hlv : visit cfg l st with ⟨l', lt', st1⟩
+      rw [hlv] at e1 ev1 hst1
+      simp only [] at e1 ev1 hst1
+      subst e1
+      obtain ⟨e2, _, ev2⟩ := ihr rt (.sc .string) hsr (hr rt hsr) st1 (hst1.trans hst)
+      rcases hrv : visit cfg r st1 with ⟨r', rt', st2⟩
+      rw [hrv] at e2 ev2
+      simp only [] at e2 ev2
+      subst e2
+      have hτ : τ = boolTy := by
+        unfold matchesRule at hrule
+        split at hrule
+        · cases hrule; rfl
+        · cases hrule
+      subst hτ
+      have : V = .sc .bool := by
+        have : vtyOf boolTy = some (.sc .bool) := by decide
+        rw [this] at hV; cases hV; rfl
+      subst this
+      simp only [visit, hlv, hrv, hrule, orFail_ok]
+      refine ⟨trivial, setKd_kd _ _, ?_⟩
+      apply smok_evalOKV
+      intro ctx hctx
+      show SMOK E (fun v => ValOfV v (.sc .bool)) (eval c ctx (.matches { m with kd := OTy.kind boolTy } hasRe l' r'))
+      have hmatch : ∀ pat subj, SMOK E (fun v => ValOfV v (.sc .bool))
+          (match c.world.regexMatch pat subj with
+            | some mm => (pure (Val.bool mm) : SM Val)
+            | none => SM.fail .type_) := by
+        intro pat subj
+        obtain ⟨mm, hmm⟩ := Option.isSome_iff_exists.1 (hre pat subj)
+        rw [hmm]
+        exact smok_pure ⟨mm, rfl⟩
+      simp only [eval]
+      refine smok_bind (evalOKV_smok ev1 ctx hctx) ?_
+      intro a ha
+      obtain ⟨subj, rfl⟩ := ha
+      cases hasRe with
+      | true =>
+        simp only [if_true]
+        exact hmatch _ subj
+      | false =>
+        simp only [Bool.false_eq_true, if_false]
+        refine smok_bind (evalOKV_smok ev2 ctx hctx) ?_
+        intro b hb
+        obtain ⟨pat, rfl⟩ := hb
+        exact hmatch pat subj
+
+/-! ### method calls -/
+
+/-- **the hypothesis on methods**: a method (or function-typed member) the checker resolves on a receiver
+type of the fragment — held by the receiver value as the entry `id` —, called with arguments of its
+parameter types, returns a value of its declared result type or fails with a tolerated class -/
+def MethodsConform (E : ErrClass → Prop) (cfg : CheckCfg) (c : SCfg) : Prop :=
+  ∀ (t : OTy) (nm : String) (p : Bool) (fs : List (String × Val)) (name id : String) (fn : Ty) (isMethod : Bool)
+    (ins : List Ty) (variadic : Bool) (numIn offset : Nat) (out : Ty) (vs : List Val) (V : VTy),
+    vtyOf t = some (.obj t) → ValOfV (.struct nm p fs) (.obj t) →
+    methodTarget cfg.dn t name = some (fn, isMethod) → lookupKv name fs = some (.fn id) →
+    funcPlan fn isMethod vs.length = .inr (ins, variadic, numIn, offset, out) →
+    ArgsConform ins variadic numIn offset 0 vs → vtyOf (some out) = some V →
+    ROK E (fun v => ValOfV v V) (c.world.call id vs)
+
+/-- `x.m(a₁, …, aₙ)` / `x?.m(…)` for `x` of struct (or pointer-to-struct) type -/
+theorem spec2_method (hd : E .divzero) (cfg : CheckCfg) (c : SCfg) (hdn : cfg.dn = NDefects.asIs)
+    (hm : MethodsConform E cfg c) (cs : List OTy)
+    (m : Meta) (x : Node) (name : String) (args : List Node) (nilsafe : Bool)
+    (ihx : Spec2 E cfg c cs x)
+    (hx : ∀ t, synth cfg cs x = some t → vtyOf t = some (.obj t))
+    (hplan : ∀ t fn isMethod, synth cfg cs x = some t → methodTarget cfg.dn t name = some (fn, isMethod) →
+      ∃ ins variadic numIn offset out, funcPlan fn isMethod args.length = .inr (ins, variadic, numIn, offset, out) ∧
+        ArgsOK E cfg c cs ins variadic numIn offset 0 args) :
+    Spec2 E cfg c cs (.method m x name args nilsafe) := by
+  intro τ V hs hV st hst
+  simp only [synth] at hs
+  cases hsx : synth cfg cs x with
+  | none => rw [hsx] at hs; cases hs
+  | some t =>
+    rw [hsx] at hs
+    simp only [] at hs
+    have hVt := hx t hsx
+    obtain ⟨e1, _, ev1⟩ := ihx t (.obj t) hsx hVt st hst
+    have hc1 := visit_colls cfg x st
+    rcases hxv : visit cfg x st with ⟨x', t', st1⟩
+    rw [hxv] at e1 ev1 hc1
+    simp only [] at e1 ev1 hc1
+    subst e1
+    cases hmt : methodTarget cfg.dn t' name with
+    | none =>
+      rw [hmt] at hs
+      simp only [] at hs
+      split at hs
+      · cases hs
+      · cases hs
+        have : vtyOf none = none := by decide
+        rw [this] at hV; cases hV
+    | some p =>
+      obtain ⟨fn, isMethod⟩ := p
+      rw [hmt] at hs
+      simp only [] at hs
+      obtain ⟨ins, variadic, numIn, offset, out, hfp, hargs⟩ := hplan t' fn isMethod hsx hmt
+      rw [hfp] at hs
+      simp only [] at hs
+      by_cases hsa : synthArgs cfg cs ins variadic numIn offset 0 args = true
+      · rw [if_pos hsa] at hs
+        cases hs
+        obtain ⟨okr, hcr, evr⟩ := args_spec2 hd cfg c cs ins variadic numIn offset args 0 hargs hsa st1 (hc1.trans hst)
+        rcases hr : checkArgs cfg ins variadic numIn offset 0 args st1 with ⟨args', ok, st2⟩
+        rw [hr] at okr hcr evr
+        simp only [] at okr hcr evr
+        subst okr
+        simp only [visit, hxv, hmt, hfp, hr, if_true]
+        refine ⟨trivial, setKd_kd _ _, ?_⟩
+        apply smok_evalOKV
+        intro ctx hctx
+        show SMOK E (fun v => ValOfV v V)
+          (eval c ctx (.method { m with kd := OTy.kind (some out) } x' name args' nilsafe))
+        simp only [eval]
+        refine smok_bind (evalOKV_smok ev1 ctx hctx) ?_
+        intro obj hobj
+        refine smok_bind (evr ctx hctx) ?_
+        intro vs ⟨hlen, hconf⟩
+        -- the receiver is a struct value: not nil
+        obtain ⟨nm, p, fs, rfl, _, hmeths⟩ := (vtyOf_obj_of hVt obj 0).1 (hobj 1)
+        obtain ⟨id, hid⟩ := hmeths name fn isMethod (by rw [← hdn]; exact hmt)
+        have hcall : ROK E (fun v => ValOfV v V) (callMember c.world (.struct nm p fs) name vs) := by
+          have := hm t' nm p fs name id fn isMethod ins variadic numIn offset out vs V hVt hobj hmt hid
+            (by rw [hlen]; exact hfp) hconf hV
+          simp only [callMember, hid]
+          exact this
+        simp only [Val.isNilLike, Bool.and_false, Bool.false_eq_true, if_false]
+        split
+        · exact smok_bind (smok_logCall name vs) (fun _ _ => smok_lift hcall)
+        · exact smok_lift hcall
+      · rw [if_neg hsa] at hs; cases hs
 
 end ExprModel
